@@ -460,17 +460,52 @@ def monitor(ctx, extended=False):
                 ctx.count('evaluations')
                 h1 = [pl.calc_system_head(Q) for Q in Qs]
                 g1 = pl.hydraulic_gradient(Qs[0])
-                got = [sl.GSD, sl.vls_list, sl.Erhg_curves, sl.im_curves]
+                import copy as _cp
+                ldv_before = _cp.deepcopy([sl.LDV_curves, sl.LDV85_curves])
+                got = [sl.GSD, sl.vls_list, sl.Erhg_curves, sl.im_curves, sl.LDV_curves, sl.LDV85_curves]
                 for c_ in got:
                     wreck(c_)
                 h2 = [pl.calc_system_head(Q) for Q in Qs]
                 g2 = pl.hydraulic_gradient(Qs[0])
+                # and ANOTHER slurry object with the same parameters, built afterwards, tabulates what the first one tabulated before the caller touched anything
+                sl2 = E.make_slurry(pp, max_index=20)
+                ldv_after = [sl2.LDV_curves, sl2.LDV85_curves]
+                if not same(ldv_before, ldv_after):
+                    ctx.violation('after the caller wrecked the containers one slurry object had returned, a second slurry object with the same parameters tabulates other LDV curves '
+                                  f'(Cv grid now starts {str(ldv_after[0].get("Cv", [])[:3])})', {'slurry': pp}, key='returned-object-aliased')
                 if not (same(h1, h2) and same(g1, g2)):
                     ctx.violation(f'after the caller wrecked the grading dict / velocity list / curve tables the slurry object had returned, the pipeline reports {str(h2)[:120]} instead of {str(h1)[:120]}',
                                   {'slurry': pp, 'diameters': [pp['Dp'], d_other]}, key='returned-object-aliased')
                 events.add(('pipeline', 'wrecked-slurry-containers'))
             except Exception as e:   # noqa
                 ctx.violation(f'pipeline / slurry object stratum raised {type(e).__name__}: {e}', {'slurry': pp}, key='returned-object-aliased')
+        # pump objects built WITHOUT a slurry (they get a default one): what one of them is asked, or what is done to its slurry, leaves no trace in another
+        try:
+            import pipegen as G_
+            from DHLLDV.PumpObj import Pump as _Pump
+            for name_ in sorted(G_.example_pumps())[:2]:
+                base_ = G_.example_pumps()[name_]
+
+                def bare():
+                    from DHLLDV.DHLLDV_Utils import interpDict as _iD
+                    return _Pump(name=base_.name, design_speed=base_.design_speed, design_impeller=base_.design_impeller, suction_dia=base_.suction_dia,
+                                 disch_dia=base_.disch_dia, design_QH_curve=_iD(dict(base_.design_QH_curve)), design_QP_curve=_iD(dict(base_.design_QP_curve)),
+                                 avail_power=base_.avail_power, limited=base_.limited)
+                Qp = 0.5 * max(base_.design_QH_curve.keys())
+                ctx.count('evaluations')
+                ref = bare().point(Qp)
+                a_ = bare()
+                a_.slurry.Cv = 0.30
+                a_.slurry.D50 = 0.4e-3
+                a_.point(Qp)
+                b_ = bare()
+                got_b = b_.point(Qp)
+                if not same(list(ref), list(got_b)):
+                    ctx.violation(f'a pump built without a slurry answers {str(got_b)[:120]} after ANOTHER such pump had its own slurry edited (Cv=0.30, D50=0.4 mm); '
+                                  f'before that edit the same query gave {str(ref)[:120]}', {'pump': name_, 'Q': Qp}, key='returned-object-aliased')
+                events.add(('pump', 'default-slurry'))
+        except Exception as e:   # noqa
+            ctx.violation(f'pump default-slurry stratum raised {type(e).__name__}: {e}', {}, key='returned-object-aliased')
         # a function may not edit the containers it is given: the same call repeated with the caller's own list / dict gives the same answer
         import copy as _copy
         import unit_conv as UC
